@@ -195,8 +195,8 @@ def run_case(case):
                     fit = float((eprof[ri, b] * px).sum() / (px * px).sum())
                     if abs(fit * c - 1) <= 1e-3:
                         ce = fit
-                e1 = np.abs(prof[ri, b] - cb * py).max() / (np.abs(py).max() + 1e-30)
-                e2 = np.abs(eprof[ri, b] - ce * px).max() / (np.abs(px).max() + 1e-30)
+                e1 = np.abs(prof[ri, b] - cb * py).max() / (np.abs(cb * py).max() + 1e-30)
+                e2 = np.abs(eprof[ri, b] - ce * px).max() / (np.abs(ce * px).max() + 1e-30)
                 met["proj_err"] = max(met.get("proj_err", 0), e1, e2)
                 if e1 > 4e-6:
                     return fail(nontriv, cls, "record %d (step %d): bunch profile of bunch %d is not the projection of the stored phase space (rel %.3g; renormalisation step: %s)" % (ri, s, b, e1, renorm_step), "proj:bunchprofile", met)
